@@ -213,6 +213,22 @@ class EffectAnalysis:
         return None
 
     # ------------------------------------------------------------------ fixpoint
+    def _opaque_objects(self, module: str) -> set:
+        """module-level names bound to the result of a call the constant folder cannot evaluate, other than compiled patterns and loggers"""
+        cache = self.__dict__.setdefault("_opaque_cache", {})
+        if module not in cache:
+            names = set()
+            mi = self.repo.modules[module]
+            env = self.ce.module_env(module)
+            for st in mi.tree.body:
+                if isinstance(st, ast.Assign) and len(st.targets) == 1 and isinstance(st.targets[0], ast.Name) and isinstance(st.value, ast.Call):
+                    nm = st.targets[0].id
+                    fn = norm(st.value.func).split(".")[-1]
+                    if isinstance(env.get(nm), Unknown) and fn not in ("compile", "getLogger", "Struct", "defaultdict"):
+                        names.add(nm)
+            cache[module] = names
+        return cache[module]
+
     @property
     def _autoviv(self) -> set:
         """module-level names whose value is built with collections.defaultdict, directly or through a module-level helper"""
@@ -417,6 +433,9 @@ class EffectAnalysis:
                 # subscript/attribute targets are covered by their Store context above
             elif isinstance(n, ast.Call) and isinstance(n.func, ast.Attribute) and n.func.attr in MUTATORS:
                 recv, kind = n.func.value, f".{n.func.attr}()"
+            elif isinstance(n, ast.Call) and isinstance(n.func, ast.Attribute) and isinstance(n.func.value, ast.Name) and n.func.value.id in self._opaque_objects(f.module):
+                # a method call on a module-level object of a type the constant folder does not know (an incremental decoder, a parser object, ...): it may keep state
+                recv, kind = n.func.value, f".{n.func.attr}() on a module-level object of unknown type (it may keep state between calls)"
             elif isinstance(n, ast.Subscript) and isinstance(n.ctx, ast.Load) and not isinstance(n.slice, ast.Slice) and self._autoviv:
                 # a lookup `T[k]` on a table backed by collections.defaultdict inserts the missing key: a read that writes
                 o = self.taint(f, n.value, locals_)
